@@ -135,7 +135,7 @@ def make_network(cfg):
             for c in range(k)}
     kw['routing'] = {names[c]: _routing(cfg['routing'][c]) for c in range(k)}
     if cfg.get('prio') is not None:
-        pm = {names[c]: cfg['prio'][c] for c in range(k)}
+        pm = {names[c]: cfg['prio'][c] for c in (reversed(range(k)) if cfg.get('prio_rev') else range(k))}
         if cfg.get('preempt') is not None:
             kw['priority_classes'] = (pm, list(cfg['preempt']))
         else:
@@ -143,8 +143,10 @@ def make_network(cfg):
     if cfg.get('disc') is not None:
         kw['service_disciplines'] = [DISC[d] for d in cfg['disc']]
     if cfg.get('ccm') is not None:
+        # the same matrix may be written with its keys in another order (cfg['ccm_rev']): the meaning must not depend on it
+        order = list(reversed(range(k))) if cfg.get('ccm_rev') else list(range(k))
         kw['class_change_matrices'] = [
-            (None if m is None else {names[a]: {names[b]: m[a][b] / PDEN for b in range(k)} for a in range(k)})
+            (None if m is None else {names[a]: {names[b]: m[a][b] / PDEN for b in order} for a in order})
             for m in cfg['ccm']]
     if cfg.get('cct') is not None:
         kw['class_change_time_distributions'] = {
